@@ -764,3 +764,111 @@ Theorem remove_child_eafp_order_refuted :
                    In c (kids h' 4).
 Proof. exact eafp_order_refuted. Qed.
 Print Assumptions remove_child_eafp_order_refuted.
+
+(* ================= wave 9: op_error_frame for the Tree-level operations =================
+   HErr e h' = the exception e was raised and h' is the heap at the moment of the raise.
+   Vocabulary (Proofs/C03W9ErrFrame.v, executable definitions):
+     prefix_states f l h   the heaps met at the head of each reached iteration of "for x in l: f x"
+     loop_states           the same for every reached round of the leaf-pruning loop (HeapOps.leaf_prune_loop)
+     err_states o h        the documented partial states of operation o started on h, as a LIST computed from o and h:
+                             filter_leaf_nodes / prune_leaves_without_taxa   loop_states of their removal loop
+                             prune_nodes      prefix_states of "for nd in nodes: nd.parent.remove_child(nd)", then - with
+                                              prune_leaves_without_taxa=True - those of the leaf loop run on the result
+                             prune_taxa / retain_taxa   prefix_states of the post-order removal loop, then the leaf loop
+                             every other operation: []  (an error leaves the heap of the call)
+                           (an exception inside these loops comes from Node.remove_child / None.remove_child / the
+                            seed guard, all raised before anything is written, so the state left is an iteration head)
+     tree_level_op o       reseed_at, to_outgroup_position, reroot_at_node, reroot_at_edge, reroot_at_midpoint,
+                           prune_subtree, set_child_nodes, filter_leaf_nodes, prune_leaves_without_taxa, prune_nodes,
+                           prune_taxa, retain_taxa
+     reroot_op o           reseed_at, to_outgroup_position, reroot_at_node, reroot_at_edge, prune_subtree
+   covered_v v h o (Proofs/C03Variants.v) = the arguments are in the operation's domain (live nodes; for the old form
+   of to_outgroup_position the two classes where it is broken are excluded, for the repaired form nothing is). *)
+From DV Require Import Proofs.C03W9ErrFrame Proofs.C03W9Invert.
+
+(* "raises a documented error and leaves the tree well formed": on a well-formed heap, whenever a Tree-level operation
+   raises, the heap left behind is the heap of the call or one of the listed partial states, and it is well formed -
+   for every variant of the repaired sites *)
+Theorem op_error_frame : forall (v : variants) (h : heap) (o : op) (e : err) (h' : heap),
+  WF h -> covered_v v h o -> tree_level_op o = true ->
+  run_op_v v o h = HErr e h' ->
+  (h' = h \/ In h' (err_states o h)) /\ WF h'.
+Proof. exact op_error_frame_l. Qed.
+Print Assumptions op_error_frame.
+
+(* hence, where no partial state is listed, an error leaves the heap unchanged *)
+Theorem op_error_unchanged : forall (v : variants) (h : heap) (o : op) (e : err) (h' : heap),
+  WF h -> covered_v v h o -> tree_level_op o = true -> err_states o h = [] ->
+  run_op_v v o h = HErr e h' -> h' = h.
+Proof. exact op_error_unchanged_l. Qed.
+Print Assumptions op_error_unchanged.
+
+(* re-seeding, re-rooting, to_outgroup_position (old and repaired form) and prune_subtree: the ONLY error is the entry
+   refusal of Proofs/C03ErrFrame.v (the seed as outgroup: AssertionError; the seed's edge: AttributeError; pruning the
+   seed: TypeError), raised with the heap of the call; reseed_at and reroot_at_node never raise (refusal = None) *)
+Theorem op_error_frame_reroot : forall (v : variants) (h : heap) (o : op) (e : err) (h' : heap),
+  WF h -> covered_v v h o -> reroot_op o = true ->
+  run_op_v v o h = HErr e h' -> h' = h /\ refusal h o = Some e.
+Proof. exact reroot_error_is_refusal_l. Qed.
+Print Assumptions op_error_frame_reroot.
+
+(* Edge.invert as a stand-alone operation.  On EVERY heap an error outcome leaves the heap of the call, the heap after
+   the grandparent's child list was re-pointed (invert_regraft), or that heap with the child removed from its parent: *)
+Theorem op_error_frame_edge_invert_any : forall (c : Z) (h : heap) (e : err) (h' : heap),
+  edge_invert c h = HErr e h' -> h' = h \/ In h' (invert_err_states c h).
+Proof. exact edge_invert_error_states_l. Qed.
+Print Assumptions op_error_frame_edge_invert_any.
+
+(* on a well-formed heap and a live node its internal assertions cannot trip: the only error is "Cannot invert edge
+   with None for tail node" on the seed, heap unchanged *)
+Theorem op_error_frame_edge_invert : forall (h : heap) (c : Z) (e : err) (h' : heap),
+  WF h -> live h c -> edge_invert c h = HErr e h' -> h' = h /\ e = ValueErr /\ parent h c = None.
+Proof. exact edge_invert_error_frame_l. Qed.
+Print Assumptions op_error_frame_edge_invert.
+
+(* the hypotheses are satisfiable and the second disjunct is inhabited: filter_leaf_nodes(lambda nd: False) prunes the
+   seven-node example tree down to its seed and raises; the state left differs from the heap of the call, is listed,
+   consists of the seed alone and is well formed *)
+Theorem op_error_frame_partial_state_example : forall v : variants,
+  exists e h', WF ef_heap /\ covered_v v ef_heap (OFilterLeafNodes [] true false false) /\
+    run_op_v v (OFilterLeafNodes [] true false false) ef_heap = HErr e h' /\
+    h' <> ef_heap /\ In h' (err_states (OFilterLeafNodes [] true false false) ef_heap) /\
+    kids h' (seed h') = [] /\ WF h'.
+Proof. exact w9_partial_state. Qed.
+Print Assumptions op_error_frame_partial_state_example.
+
+Theorem op_error_frame_refusal_example : forall v : variants,
+  covered_v v ef_heap (ORerootAtEdge 0 None None false true) /\
+  run_op_v v (ORerootAtEdge 0 None None false true) ef_heap = HErr AttrErr ef_heap /\
+  covered_v v ef_heap (OToOutgroup 0 true false) /\
+  run_op_v v (OToOutgroup 0 true false) ef_heap = HErr AssertErr ef_heap.
+Proof. exact w9_refusal. Qed.
+Print Assumptions op_error_frame_refusal_example.
+
+Theorem op_error_frame_edge_invert_example :
+  live ef_heap 0 /\ edge_invert 0 ef_heap = HErr ValueErr ef_heap /\
+  live ef_heap 5 /\ exists h', edge_invert 5 ef_heap = HOk h'.
+Proof. exact w9_invert_examples. Qed.
+Print Assumptions op_error_frame_edge_invert_example.
+
+
+(* op_error_frame over the operation language: every operation of Model/HeapOps.v except resolve_polytomies,
+   randomly_rotate and randomly_reorient (err_frame_op, Proofs/C03W9All.v).  err_states_all o h = err_states o h, plus for
+   shuffle_taxa the one state in which the whole shuffle has been written (its final assertion on a repeated taxon
+   trips after the last write).  For the operations not named in op_error_frame the proof shows that they complete on
+   every covered argument or raise at entry with the heap of the call. *)
+From DV Require Import Proofs.C03W9All.
+
+Theorem op_error_frame_all : forall (v : variants) (h : heap) (o : op) (e : err) (h' : heap),
+  WF h -> covered_v v h o -> err_frame_op o = true ->
+  run_op_v v o h = HErr e h' ->
+  (h' = h \/ In h' (err_states_all o h)) /\ WF h'.
+Proof. exact op_error_frame_all_l. Qed.
+Print Assumptions op_error_frame_all.
+
+Theorem op_error_frame_shuffle_example : forall v : variants,
+  exists h', WF w9_dup_heap /\ covered_v v w9_dup_heap (OShuffleTaxa false [0%nat; 0%nat]) /\
+    run_op_v v (OShuffleTaxa false [0%nat; 0%nat]) w9_dup_heap = HErr AssertErr h' /\
+    In h' (err_states_all (OShuffleTaxa false [0%nat; 0%nat]) w9_dup_heap).
+Proof. exact w9_shuffle_example. Qed.
+Print Assumptions op_error_frame_shuffle_example.
